@@ -68,6 +68,8 @@ impl TombstoneLog {
         tombstones: &mut Vec<Tombstone>,
     ) -> Result<Self> {
         let mut recovered = vec![];
+        // The slots that hold a tombstone.
+        let mut occupied = std::collections::HashSet::new();
 
         // Byte offset of the current partition in the log's (concatenated) address space.
         let mut base = 0;
@@ -91,6 +93,7 @@ impl TombstoneLog {
                     if tombstone.sequence == 0 {
                         continue;
                     }
+                    occupied.insert((base + offset) / Tombstone::SERIALIZED_LEN + slot);
                     recovered.push((tombstone, addr));
                 }
             }
@@ -120,7 +123,22 @@ impl TombstoneLog {
         };
 
         let pages = partitions.iter().map(|p| p.size()).sum::<usize>() / PAGE;
-        let slot = latest_tombstone_slot + 1;
+
+        // With more than one flusher the log is not written in sequence order: the newest tombstone need not be the
+        // last one written. Resume behind the last occupied slot that follows it, or tombstones written after it are
+        // overwritten by the next appends. (In a log that is full all the way round, the newest is all there is to go by.)
+        let slots = pages * Self::SLOTS_PER_PAGE;
+        let mut last_tombstone_slot = latest_tombstone_slot;
+        let mut skipped = 0;
+        while skipped < slots && occupied.contains(&((last_tombstone_slot + 1) % slots)) {
+            last_tombstone_slot += 1;
+            skipped += 1;
+        }
+        if skipped == slots {
+            last_tombstone_slot = latest_tombstone_slot;
+        }
+
+        let slot = last_tombstone_slot + 1;
         let (page, _) = Self::calculate_slot_addr(pages, slot);
         let buffer = PageBuffer::open(io_engine, partitions, page as _).await?;
 
